@@ -8,12 +8,23 @@
    Two layers.
    (A) Theorems about prepare_query R lg genes input lists (Model/Normalize.v): one matrix per
        parent node, columns = that parent's markers in REFERENCE order.
-   (B) The link to the RESULT: c07_equal_profile_equal_vote / c07_equal_parent_matrix_equal_vote
-       (the vote model of C01-C03, Model/VoteDecide.v, receives the query only through
-       q_at cell parent = that cell's row on that parent's markers; q_of reads this row out of
-       the prepared matrices) and the composed theorems c07_*_vote, which state each relation
-       of (A) as "every vote record and every decision (generator state included) is the
-       same", for every reference side, bootstrap draw, n_assign and parent.
+   (B) The link to the RESULT, in two steps.
+       (B1) c07_prepared_row_is_the_compared_row: with the per-parent lists and the parent -> matrix
+       map DERIVED from the marker cache the way matching.assemble_query_data derives them
+       (Model/NormalizeRef.v: cache_lists, pidx_of), the row q_of reads out of the prepared matrices is,
+       column for column, the cell's normalised value BY GENE NAME of the gene that names the same
+       column of the reference matrix of Model/RefSide.v (C18) -- the row the reference side is
+       compared with.  This is the content of the bridge.
+       (B2) c07_equal_profile_equal_vote / c07_equal_parent_matrix_equal_vote (the vote model of
+       C01-C03, Model/VoteDecide.v, receives the query only through q_at cell parent) and the
+       corollaries c07_*_vote.  HONEST LABEL for all of (B2): same_votes m1 m2 is EQUIVALENT to
+       m1 = m2 (c07_same_votes_is_eq below), so every c07_*_vote theorem says exactly "the prepared
+       matrices are equal", i.e. it is the theorem of (A) once more; the quantification over
+       refs_at, draw, n_assign, corr_of adds nothing (any function of equal matrices is equal), and
+       corr_of, a function of the row alone, cannot even express the real avg_correlation, which also
+       depends on the drawn subsets.  They are kept (MANIFEST / DESIGN cite them) as corollaries
+       "(A) + the bridge; by construction of the model"; that the real election has the shape
+       "query enters through the per-parent rows only" is in the ties (harness/props/c02.py, c07.py).
 
    R, lg : the type of normalised values and v |-> log2(1 + v).  Nothing is assumed about lg
    except, where stated, that it depends only on the VALUE of the fraction it is given
@@ -22,22 +33,47 @@
 
    DOMAIN (read this before quoting a theorem).  Raw values are INTEGER counts (Z) and a scale
    factor is an integer k > 0, or a rational b/a relating two INTEGER matrices
-   (a * x = b * y entry-wise).  The real code accepts any numeric dtype.  What was measured on
-   the real code (harness/props/c07.py states it in its assumptions): for integer counts and
-   integer factors (and for any power of two) log2CPM is bitwise equal; for a non-integer
-   factor (0.3, 1.7) or non-integer raw values it differs in the last bits (<= 3.6e-15
+   (a * x = b * y entry-wise).  The model divides by the EXACT integer row sum (rsum), which does
+   not depend on the order of the columns.  The real convert_to_cpm sums each row with np.sum in
+   the STORAGE dtype of the matrix and in COLUMN order (float32 data are summed in float32).
+   The theorems therefore describe the real code only on inputs with
+
+       integer counts, and row sums (x k, for the scale relation) exactly representable in the
+       storage dtype: < 2^24 for float32, < 2^53 for float64
+
+   (c07_float_sum_exact_below_2_24: under that bound the left-to-right binary32 sum IS rsum).
+   Outside it the real code differs from the model -- measured on the real code (audit 3,
+   reproduced by harness/props/c07.py, stream `outside-domain`):
+     - float32 integer counts, row sum > 2^24, times an integer factor: log2CPM NOT bitwise equal
+       (rounding-level change; the property allows that for the scale relation);
+     - float32 integer counts with row sum > 2^24, or float64 NON-integer raw values, with the gene
+       columns permuted: to_log2CPM NOT bitwise equal, and a real run_mapping on non-integer raw
+       data reports avg_correlation values that differ in the last bits after a column permutation
+       (assignments equal).  The property text says "Permuting the gene columns ... leaves the
+       result bitwise unchanged": finding F28 (known_findings.json; findings/F28_raw_permutation_repro.py);
+       cause: a float sum depends on the order of its terms (c07_float_sum_order_matters: the exact
+       model is permutation invariant, a left-to-right float sum is not).
+   Within the domain, what was measured on the real code (harness/props/c07.py states it in its
+   assumptions): for integer counts and integer factors (and for any power of two) log2CPM is
+   bitwise equal; for a non-integer factor (0.3, 1.7) it differs in the last bits (<= 3.6e-15
    absolute, 2.2e-16 relative) -- a floating-point effect outside these exact-arithmetic
    theorems, for which the property asks only that the MAPPING be unchanged at bootstrap
    factor 1 (the paired runs of the tie check exactly that, with near ties excused). *)
 From Coq Require Import ZArith List Bool Permutation.
 From CTM Require Import Base.Sx Base.SortX Model.Tree Model.Vote Model.Election Model.VoteDecide
                         Model.NormalizeVote Model.Normalize Proofs.NormalizeP Proofs.NormalizeVoteP.
+From CTM Require Model.Markers Model.RefSide.
+From CTM Require Import Model.NormalizeRef Proofs.NormalizeRefP.
 Import ListNotations.
 Open Scope Z_scope.
 
 (* (1) scale: for every k > 0 the CPM of k*row equals the CPM of row entry-wise AS FRACTIONS
    (including the all-zero row, whose denominator is 1), hence the normalised rows are equal,
-   hence, with an arbitrary positive factor per cell, the prepared query is equal *)
+   hence, with an arbitrary positive factor per cell, the prepared query is equal.
+   DOMAIN of the statement about the real code: integer counts; row sums AND k x row sums exactly
+   representable in the storage dtype (< 2^24 for float32, < 2^53 for float64).  Beyond that the
+   real float32 code gives a rounding-level different log2CPM (see DOMAIN above; counted, not a
+   violation: the property allows rounding-level change under scaling). *)
 Theorem c07_scale_invariant :
   forall (R : Type) (lg : frac -> R),
   (forall a b, 0 < snd a -> 0 < snd b -> feq a b -> lg a = lg b) ->
@@ -99,7 +135,12 @@ Proof. exact raw_equals_declared. Qed.
 Print Assumptions c07_raw_equals_declared_normalised.
 
 (* (3) gene order: for every permutation p of the columns, applied to the names and to every
-   row, the prepared query is unchanged — raw and declared-normalised input *)
+   row, the prepared query is unchanged — raw and declared-normalised input.
+   DOMAIN of the RAW half as a statement about the real code: integer counts with row sums exactly
+   representable in the storage dtype (< 2^24 for float32, < 2^53 for float64): the model's row sum
+   is exact and order independent (rsum_perm), np.sum is neither outside that domain
+   (c07_float_sum_order_matters; finding F28).  The declared-normalised half involves no sum and
+   holds bitwise of the real code for every dtype (paired runs, function-level relation). *)
 Theorem c07_gene_permutation :
   forall (R : Type) (lg : frac -> R) p genes lists,
   NoDup genes -> Permutation p (seq 0 (length genes)) ->
@@ -156,7 +197,14 @@ Print Assumptions c07_negative_raw_rejected.
    HONEST LABEL: by construction of the model (downsample_genes sets the flag, to_log2cpm tests
    it: a two-line unfolding).  The content is in the tie: harness/props/c07.py (ops_cases) runs
    random sequences of the real CellByGeneMatrix.to_log2CPM(_in_place) / downsample_genes
-   (_in_place) against make_cbg / to_log2cpm / downsample_genes, the guard included. *)
+   (_in_place) / downsample_cells against make_cbg / to_log2cpm / downsample_genes /
+   downsample_cells_idx, the guard included.
+   SCOPE: the guard holds of what downsample_genes RETURNS.  It is not an invariant of the class:
+   downsample_cells builds a new matrix through the constructor and the flag starts False again
+   (c07_guard_lost_by_downsample_cells below: model and real code alike accept
+   downsample_genes -> downsample_cells -> to_log2CPM).  No caller in the mapping pipeline does
+   that (cells are down-selected on the reference side only, which is already log2CPM): an
+   observation about the class, not a finding about the mapper. *)
 Theorem c07_normalise_after_downsample_rejected :
   forall (R : Type) (lg : frac -> R) (m m' : cbg Z) sel,
   downsample_genes m sel = Ok m' ->
@@ -164,7 +212,53 @@ Theorem c07_normalise_after_downsample_rejected :
 Proof. exact normalise_after_downsample_rejected. Qed.
 Print Assumptions c07_normalise_after_downsample_rejected.
 
-(* ---------------- (B) the link to the votes ---------------- *)
+(* ---------------- (B1) the prepared row IS the row the reference side is compared with ---------------- *)
+
+(* THE CONTENT OF THE BRIDGE.  Everything the vote model reads of the query is q_of pidx mats cell
+   parent (Model/NormalizeVote.v) where `lists` (input of prepare_query) and `pidx` used to be free.
+   Here they are what the real matching.assemble_query_data uses: c = the marker cache written by
+   write_query_markers_to_h5 (Model/Markers.v, C08) from the reconciled table tb, the reference gene
+   names refg and the query gene names qg; cache_lists c qg = per group the names at the group's
+   QUERY indices; pidx_of c = position of the parent's group.  a = what Model/RefSide.v's
+   assemble_reference (C18: the reference half of the same function, tied to the real code by
+   harness/props/c18.py) returns for the same cache and parent.  Then
+     - the list prepare_query was given for this parent IS the reference matrix's column names
+       (and a_qgenes a, and a permutation of the table's entry for the parent: c18_columns_aligned);
+     - the prepared matrix has one row per cell;
+     - for EVERY cell ci, the row the vote reads, nth ci (nth (pidx_of c parent) mats []) [] =
+       q_of (pidx_of c) mats ci parent, is column for column (Forall2 against the reference columns
+       m_genes (a_ref a)) the value found BY NAME (zassoc g (combine qg row)) in the cell's full
+       normalised row: raw input -> log2cpm_row of the FULL row, declared input -> the row as given.
+   Query gene order, reference gene order and marker order may all differ: a column mix-up between
+   them would make this false.  qgenes (gene identifiers of the matrix handed over) and qnorm are
+   arbitrary: they only take part in error branches. *)
+Theorem c07_prepared_row_is_the_compared_row :
+  forall (A R : Type) (lg : frac -> R) (tb : Markers.table) (t : tree) (refg qg : list Markers.gene)
+         (c : Markers.cache) (lists : list (list Z)) (inp : qinput R) (mats : list (list (list R)))
+         (qgenes : list Z) (qnorm : norm_tag) (m : RefSide.rmat A) (parent : Markers.pkey) (a : RefSide.assembled A),
+  Markers.write_query_markers tb refg qg = Markers.MOk c ->
+  cache_lists c qg = Some lists ->
+  prepare_query R lg qg inp lists = Ok mats ->
+  RefSide.assemble_reference A t (Markers.c_groups c) refg qg qgenes qnorm m parent = RefSide.ROk a ->
+  exists k l,
+    group_index parent (Markers.c_groups c) = Some k /\ pidx_of c parent = k /\
+    nth_error lists k = Some (RefSide.m_genes (RefSide.a_ref a)) /\
+    RefSide.a_qgenes a = RefSide.m_genes (RefSide.a_ref a) /\
+    In (parent, l) tb /\ Permutation l (RefSide.m_genes (RefSide.a_ref a)) /\
+    length (nth k mats []) = length (normalised_rows R lg inp) /\
+    forall ci row, nth_error (normalised_rows R lg inp) ci = Some row ->
+      Forall2 (fun g v => zassoc g (combine qg row) = Some v)
+              (RefSide.m_genes (RefSide.a_ref a)) (nth ci (nth (pidx_of c parent) mats []) []).
+Proof. exact prepared_row_is_the_compared_row. Qed.
+Print Assumptions c07_prepared_row_is_the_compared_row.
+
+(* ... and that row is literally what q_of hands to the vote (R := Z) *)
+Example c07_q_of_reads_that_row :
+  forall (c : Markers.cache) (mats : list (list vec)) (ci : nat) (p : parent),
+  q_of (pidx_of c) mats ci p = nth ci (nth (pidx_of c p) mats []) [].
+Proof. reflexivity. Qed.
+
+(* ---------------- (B2) the link to the votes ---------------- *)
 
 (* THE BRIDGE.  vote_record (one cell at one parent) and decide_vote (all cells routed to one
    parent in one call: one draw of bootstrap subsets, the records, the generator state handed
@@ -213,15 +307,26 @@ Theorem c07_equal_parent_matrix_equal_vote :
 Proof. exact equal_parent_matrix_equal_vote. Qed.
 Print Assumptions c07_equal_parent_matrix_equal_vote.
 
-(* THE COMPOSED STATEMENTS: each relation of (A), said about the result.  Each is the
-   prepare_query theorem of (A) composed with the bridge, and is short for that reason: once
-   the prepared matrices are equal everything downstream is a function of them.  The content
-   is (i) the theorem of (A) and (ii) the shape of the vote model (bridge above).
+(* WHAT same_votes SAYS (audit 3, A4): nothing but m1 = m2. *)
+Theorem c07_same_votes_is_eq : forall m1 m2, same_votes m1 m2 <-> m1 = m2.
+Proof. exact same_votes_is_eq. Qed.
+Print Assumptions c07_same_votes_is_eq.
+
+(* THE COROLLARIES c07_*_vote: each relation of (A), re-said about the result.
+   HONEST LABEL (applies to every theorem from here to c07_only_marker_values_by_name_vote): each is
+   "(A) + the bridge; by construction of the model".  By c07_same_votes_is_eq the conclusion is
+   equivalent to m1 = m2, which is the theorem of (A) (two equal `Ok`s); the clauses about
+   vote_record / decide_vote follow by rewriting and hold for ANY function of the matrices.  They
+   carry no content beyond (A); the content of the link query -> result is
+     (i) c07_prepared_row_is_the_compared_row above (the indexing, proved), and
+     (ii) that the real election reads the query through these rows only (the ties:
+          harness/props/c02.py recomputes every vote of real runs from the per-parent rows,
+          harness/props/c07.py compares the per-parent matrices and runs the paired real runs).
    Both preparations are assumed to succeed (if one fails so does the other, with the same
    error: that is the equality of (A)).
 
    (1v) scale, written out in full; the conclusion is `same_votes m1 m2` of
-   Model/NormalizeVote.v unfolded *)
+   Model/NormalizeVote.v unfolded.  Corollary of c07_scale_invariant; by construction. *)
 Theorem c07_scale_invariant_vote :
   forall (lg : frac -> Z),
   (forall a b, 0 < snd a -> 0 < snd b -> feq a b -> lg a = lg b) ->
@@ -242,7 +347,7 @@ Theorem c07_scale_invariant_vote :
 Proof. exact scale_invariant_vote. Qed.
 Print Assumptions c07_scale_invariant_vote.
 
-(* (1v') rational factors between two integer matrices *)
+(* (1v') rational factors between two integer matrices.  Corollary of c07_scale_invariant_rational_matrix; by construction (conclusion <-> m1 = m2). *)
 Theorem c07_scale_invariant_rational_vote :
   forall (lg : frac -> Z),
   (forall a b, 0 < snd a -> 0 < snd b -> feq a b -> lg a = lg b) ->
@@ -254,7 +359,7 @@ Theorem c07_scale_invariant_rational_vote :
 Proof. exact scale_rational_vote. Qed.
 Print Assumptions c07_scale_invariant_rational_vote.
 
-(* (2v) raw vs declared normalised (every lg) *)
+(* (2v) raw vs declared normalised (every lg).  Corollary of c07_raw_equals_declared_normalised; by construction (conclusion <-> m1 = m2). *)
 Theorem c07_raw_equals_declared_vote :
   forall (lg : frac -> Z) genes d lists m1 m2,
   has_negative d = false ->
@@ -264,7 +369,8 @@ Theorem c07_raw_equals_declared_vote :
 Proof. exact raw_equals_declared_vote. Qed.
 Print Assumptions c07_raw_equals_declared_vote.
 
-(* (3v) gene permutation, raw and declared-normalised input (every lg) *)
+(* (3v) gene permutation, raw and declared-normalised input (every lg).  Corollary of c07_gene_permutation (same DOMAIN
+   restriction for the raw half); by construction (conclusion <-> m1 = m2). *)
 Theorem c07_gene_permutation_vote :
   forall (lg : frac -> Z) p genes lists,
   NoDup genes -> Permutation p (seq 0 (length genes)) ->
@@ -279,7 +385,8 @@ Theorem c07_gene_permutation_vote :
 Proof. exact gene_permutation_vote. Qed.
 Print Assumptions c07_gene_permutation_vote.
 
-(* (4v) extra non-marker genes, and agreement by name on the markers (declared-normalised) *)
+(* (4v) extra non-marker genes, and agreement by name on the markers (declared-normalised).  Corollaries of
+   c07_extra_genes_irrelevant / c07_only_marker_values_by_name_matter; by construction (conclusion <-> m1 = m2). *)
 Theorem c07_extra_genes_vote :
   forall (lg : frac -> Z) (keep : Z -> bool) genes (d : list (list Z)) lists m1 m2,
   NoDup genes -> Forall (fun r => length r = length genes) d ->
@@ -331,6 +438,19 @@ Example c07_downsample_then_normalise_differs :
   bind (bind (make_cbg genes [row] Raw) (fun m => downsample_genes m sel)) (to_log2cpm frac fnorm)
     = Err EDownsampled.
 Proof. vm_compute. repeat split; try reflexivity. discriminate. Qed.
+
+(* the guard is lost through downsample_cells (audit 3, A13): down-selecting to genes 1, 2, then
+   selecting rows [0], then normalising is ACCEPTED and gives CPM 500000 over the gene subset,
+   where the full-gene-set value is 250000.  Observed identically on the real CellByGeneMatrix
+   (harness/props/c07.py, ops stream, counter guard_lost_via_downsample_cells). *)
+Example c07_guard_lost_by_downsample_cells :
+  let genes := [1; 2; 3] in let row := [1; 1; 2] in let sel := [1; 2] in
+  bind (bind (bind (make_cbg genes [row] Raw) (fun m => downsample_genes m sel))
+             (fun m => downsample_cells_idx m [0%nat])) (to_log2cpm frac fnorm)
+    = Ok (mk_cbg sel [[(500000, 1); (500000, 1)]] Log2CPM false) /\
+  bind (bind (make_cbg genes [row] Raw) (fun m => downsample_genes m sel)) (to_log2cpm frac fnorm)
+    = Err EDownsampled.
+Proof. vm_compute. split; reflexivity. Qed.
 
 (* scale, including an all-zero cell; factors 3 and 5 *)
 Example c07_example_scale :
@@ -474,3 +594,67 @@ Example c07_vote_depends_on_row :
   option_map asg (vote_record nat refs_at owners_at q1 1 (corr_row corr_of q1) None [1; 2] [[0; 1; 2]]%nat 0%nat) = Some 1 /\
   option_map asg (vote_record nat refs_at owners_at q2 1 (corr_row corr_of q2) None [1; 2] [[0; 1; 2]]%nat 0%nat) = Some 2.
 Proof. vm_compute. split; reflexivity. Qed.
+
+(* ---------------- non-vacuity of (B1), and the float-summation witness ---------------- *)
+
+(* the hypotheses of c07_prepared_row_is_the_compared_row on concrete numbers: reference genes in
+   the order 12, 10, 11, query genes 11, 12, 10, table entries listed in yet another order; raw
+   counts (one all-zero cell); the reference side is the example of Props/C18.v.  Root: reference
+   columns 12, 11, the rows the vote reads are the normalised values of genes 12 and 11 (query
+   columns 1 and 0); node (0,1): columns 12, 10, 11 = query columns 1, 2, 0. *)
+Example c07_example_compared_row :
+  let tb : Markers.table := [(None, [11; 12]); (Some (0%nat, 1), [10; 12; 11])] in
+  let refg := [12; 10; 11] in let qg := [11; 12; 10] in
+  let d := [[2; 4; 2]; [0; 0; 0]; [1; 5; 2]] in
+  let m := RefSide.mk_rmat [2; 3; 5] [12; 10; 11] [[8; 0; 24]; [20; 40; 60]; [4; 8; 12]] Log2CPM in
+  let t : tree := [[(1, [3; 2]); (0, [5])]; [(5, []); (2, []); (3, [])]] in
+  match Markers.write_query_markers tb refg qg with
+  | Markers.MOk c =>
+      cache_lists c qg = Some [[12; 11]; [12; 10; 11]] /\
+      pidx_of c None = 0%nat /\ pidx_of c (Some (0%nat, 1)) = 1%nat /\
+      normalised_rows Z lgz (DeclRaw d) = [[256000000; 512000000; 256000000]; [0; 0; 0]; [128000000; 640000000; 256000000]] /\
+      match prepare_query Z lgz qg (DeclRaw d) [[12; 11]; [12; 10; 11]] with
+      | Ok mats =>
+          map (fun ci => q_of (pidx_of c) mats ci None) [0; 1; 2]%nat =
+            [[512000000; 256000000]; [0; 0]; [640000000; 128000000]] /\
+          map (fun ci => q_of (pidx_of c) mats ci (Some (0%nat, 1))) [0; 1; 2]%nat =
+            [[512000000; 256000000; 256000000]; [0; 0; 0]; [640000000; 256000000; 128000000]]
+      | Err _ => False
+      end /\
+      option_map (fun a => RefSide.m_genes (RefSide.a_ref a))
+        (match RefSide.assemble_reference Z t (Markers.c_groups c) refg qg qg Log2CPM m None with
+         | RefSide.ROk a => Some a | RefSide.RErr _ => None end) = Some [12; 11] /\
+      option_map (fun a => RefSide.m_genes (RefSide.a_ref a))
+        (match RefSide.assemble_reference Z t (Markers.c_groups c) refg qg qg Log2CPM m (Some (0%nat, 1)) with
+         | RefSide.ROk a => Some a | RefSide.RErr _ => None end) = Some [12; 10; 11]
+  | Markers.MErr _ => False
+  end.
+Proof. vm_compute. repeat split; reflexivity. Qed.
+
+(* A3: the exact model is invariant under a permutation of the row (rsum), a left-to-right float
+   sum is not.  rnd24 = binary32 rounding on the integers up to 2^25 (ties to even); the row
+   [2^24; 1; 1] sums to 16777216 in float32 and its permutation [1; 1; 2^24] to 16777218 (= the
+   exact sum) -- the real numpy gives exactly these two numbers
+   (np.array([[16777216,1,1],[1,1,16777216]], dtype=np.float32).sum(axis=1)), hence two different CPM
+   rows for one cell.  This is the mechanism of finding F28 and of the float32 scale deviation. *)
+Example c07_float_sum_order_matters :
+  (forall r1 r2, Permutation r1 r2 -> rsum r1 = rsum r2) /\
+  Permutation [two24; 1; 1] [1; 1; two24] /\
+  fsum_lr rnd24 [two24; 1; 1] = 16777216 /\ fsum_lr rnd24 [1; 1; two24] = 16777218 /\
+  rsum [two24; 1; 1] = 16777218.
+Proof. exact float_sum_order_matters. Qed.
+
+(* ... and the hypothesis of the DOMAIN is what removes it: non-negative integer counts with row
+   sum <= 2^24 are summed exactly by the left-to-right binary32 sum, in every column order *)
+Theorem c07_float_sum_exact_below_2_24 :
+  forall row, Forall (fun x => 0 <= x) row -> rsum row <= two24 -> fsum_lr rnd24 row = rsum row.
+Proof. exact fsum_lr_exact. Qed.
+Print Assumptions c07_float_sum_exact_below_2_24.
+
+(* a concrete non-trivial row meets the DOMAIN hypothesis (sum 12,000,007 < 2^24) and its reversal
+   is summed to the same value *)
+Example c07_example_domain_row :
+  let row := [5000000; 0; 7; 3999999; 3000001] in
+  Forall (fun x => 0 <= x) row /\ rsum row <= two24 /\
+  fsum_lr rnd24 row = 12000007 /\ fsum_lr rnd24 (rev row) = 12000007.
+Proof. cbv zeta. split; [repeat constructor; discriminate|]. vm_compute. repeat split; try reflexivity. discriminate. Qed.
